@@ -176,6 +176,12 @@ def _shard_main(modname, ctx, outfile):
     try:
         os.makedirs(ctx.workdir, exist_ok=True)
         mod = importlib.import_module(modname)
+        if ctx.shard == 0:
+            # replay tier: the stored failing case of every listed known finding
+            for k in known_for(ctx.prop):
+                if k.get('case') is not None:
+                    mod.replay(k['case'], acc, ctx)
+                    acc.count('known-finding-replays')
         mod.shard(ctx, acc)
         status = 'ok'
         err = None
@@ -291,13 +297,10 @@ def report(prop, acc, seed, tier):
         print(f'  key={key} count={v["count"]} detail={v["detail"][:400]}')
     for k in known:
         if k['key'] in hits:
-            print(f'KNOWN-FINDING: property={prop} {k["what"]} '
-                  f'[key={k["key"]}, seen {acc.violations[k["key"]]["count"]}x]')
+            seen = f'seen {acc.violations[k["key"]]["count"]}x in this run'
         else:
-            # a listed finding is reported on every run of the unchanged tree
-            # only if the check actually reproduced it; otherwise say so
-            print(f'note: listed finding not reproduced in this run: '
-                  f'property={prop} key={k["key"]}')
+            seen = 'not re-observed in this run'
+        print(f'KNOWN-FINDING: property={prop} {k["what"]} [key={k["key"]}; {seen}]')
     return nviol, hits
 
 
